@@ -271,7 +271,7 @@ def rule_w3(ctx: Ctx) -> None:
             raise AnalysisError(f"{wb.where}: a data file is written conditionally (inside `{unparse(st).splitlines()[0][:60]}`); not decided")
         leaves = [x for x in walk_no_nested(st) if isinstance(x, (ast.Return, ast.Raise))] if not isinstance(st, (ast.FunctionDef,)) else []
         if leaves:
-            ctx.violation("C20-W5", wb, st, f"write_bisc_files can return before writing (`{unparse(st).splitlines()[0][:70]}` ...): the data of this request is dropped and a later read returns what an earlier request wrote")
+            ctx.violation("C20-W5", wb, st, f"write_bisc_files can return before writing (`{unparse(st).splitlines()[0][:70]}` ...): the data of this request is dropped and a later read returns what an earlier request wrote", robust=True)
             return
     ctx.ok("C20-W5", wb.where, "both data files are written on every path through write_bisc_files (no exit before the two writes)", wb.node, wb)
     for node, name, what in names:
@@ -563,7 +563,7 @@ def sweep(ctx: Ctx):
                 validated += 1
                 ctx.ok("C20-R1", f"permuta/resources/bisc/{name}_*_len{n}.json", f"good/bad partition S_0..S_{n} (every length: disjoint, duplicate free, k! in total)")
     for pr in problems:
-        ctx.violation("C20-R1", f"permuta/resources/bisc:{pr.split(':')[0]}", None, f"shipped data set {pr}", file="permuta/resources/bisc")
+        ctx.violation("C20-R1", f"permuta/resources/bisc:{pr.split(':')[0]}", None, f"shipped data set {pr}", file="permuta/resources/bisc", robust=True)
     if validated < 10 and not problems:
         raise AnalysisError(f"only {validated} shipped data pairs could be validated (floor 10)")
     return {"shipped_pairs_validated": validated, "shipped_pairs_skipped": skipped}
@@ -672,7 +672,7 @@ def rule_m1(ctx: Ctx, sites: List[OpenSite]) -> None:
         elif not peers:
             raise AnalysisError(f"{s.fi.where}: memoised reader ({memo[0]}) but the writer of its file was not recognised; whether the file can change is not decided")
         else:
-            ctx.violation("C20-M1", s.fi, s.fi.node, f"{s.fi.qual} is memoised ({memo[0]}) although the file it reads can be rewritten: after a later write (or a first read that found the file missing) it keeps returning the earlier result")
+            ctx.violation("C20-M1", s.fi, s.fi.node, f"{s.fi.qual} is memoised ({memo[0]}) although the file it reads can be rewritten: after a later write (or a first read that found the file missing) it keeps returning the earlier result", robust=True)
     if n == 0:
         raise AnalysisError("no reader found")
 
